@@ -464,10 +464,10 @@ def _incremental_line(tgt, fi):
 
 
 def run(ctx):
-    r7_1(ctx)
-    r7_2(ctx)
-    r7_3(ctx)
-    r7_4(ctx)
-    r7_5(ctx)
+    ctx.do(r7_1)
+    ctx.do(r7_2)
+    ctx.do(r7_3)
+    ctx.do(r7_4)
+    ctx.do(r7_5)
     for k, v in ACCEPTED_UNKNOWN.items():
         ctx.trust(f"frozen relay entry: {k} - {v}")
